@@ -1,6 +1,7 @@
 // C12 harness, shared part: presentations of one abstract input of flag_complex_collapse_edges, the NDJSON recorder and
 // the seeded input generators.  Nothing here judges the output: that is done by TLC (Trace_EdgeCollapse.tla).
 #pragma once
+#include <map>
 #include "common.hpp"
 
 #include <gudhi/Flag_complex_edge_collapser.h>
@@ -219,6 +220,29 @@ inline Graph sparse_graph(Rng& rng, long) {
     base += n;
   }
   for (std::size_t i = 0; i + 1 < firsts.size(); ++i) g.push_back({firsts[i], firsts[i + 1] + 1, 1 + static_cast<long>(rng.below(4))});
+  return g;
+}
+
+// A hub: one vertex adjacent to 32 or more of the 36-47 others, in an otherwise sparse graph of squares with a later
+// diagonal whose corners are partly neighbours of the hub.  Closed neighbourhoods of very different sizes meet in the
+// domination tests (the hub as candidate dominator of an edge between two low-degree vertices); the other families
+// have at most a dozen vertices or degree at most 6.
+inline Graph hub_graph(Rng& rng, long) {
+  std::map<std::pair<long, long>, long> E;
+  const long N = 36 + static_cast<long>(rng.below(12));
+  const long hub = static_cast<long>(rng.below(static_cast<unsigned>(N)));
+  auto add = [&](long a, long b, long w) { if (a != b) E.emplace(std::make_pair(std::min(a, b), std::max(a, b)), w); };
+  for (long u = 0; u < N; ++u) if (u != hub && !rng.chance(1, 12)) add(hub, u, 1 + static_cast<long>(rng.below(3)));
+  auto other = [&]() { long v; do { v = static_cast<long>(rng.below(static_cast<unsigned>(N))); } while (v == hub); return v; };
+  for (int k = 0; k < 10; ++k) {
+    long a = other(), b = other(), c = other(), d = other();
+    if (a == b || a == c || a == d || b == c || b == d || c == d) continue;
+    long w = 1 + static_cast<long>(rng.below(2));
+    add(a, b, w); add(b, c, w); add(c, d, w + static_cast<long>(rng.below(2))); add(d, a, w);
+    add(a, c, w + 1 + static_cast<long>(rng.below(2)));
+  }
+  Graph g;
+  for (auto& e : E) g.push_back({e.first.first, e.first.second, e.second});
   return g;
 }
 
